@@ -320,6 +320,47 @@ func runC18(args []string) {
 			}
 		})
 		ev["returned"], ev["panic"] = ret, pm
+	case "smart-parent-cancel": // SmartStop's second counterexample: the parent context is cancelled, the monitor leaves, then Stop
+		ret, pm := timed(30*time.Second, func() {
+			for round := 0; round < 5; round++ {
+				bt := &gatedBTree{entered: make(chan struct{}), release: make(chan struct{})}
+				sr := verifapi.NewSmartRebalancer(bt, verifapi.WithReevalInterval(2*time.Millisecond))
+				for i := 0; i < 200; i++ {
+					op := verifapi.OpRead
+					switch {
+					case i%20 < 9:
+						op = verifapi.OpWrite
+					case i%20 >= 18:
+						op = verifapi.OpDelete
+					}
+					_ = sr.RecordOperation(op)
+				}
+				if d, _ := sr.Evaluate(); d.Mode != verifapi.ModeIncremental {
+					ev["note"] = fmt.Sprintf("setup: selector chose %v", d.Mode)
+					return
+				}
+				ctx, cancel := context.WithCancel(context.Background())
+				_ = sr.Start(ctx)
+				// let the monitor re-evaluate and enter incremental mode (the background work starts)
+				deadline := time.Now().Add(3 * time.Second)
+				for !bt.background.Load() && time.Now().Before(deadline) {
+					time.Sleep(2 * time.Millisecond)
+				}
+				if !bt.background.Load() {
+					ev["note"] = "setup: incremental mode was never entered"
+					cancel()
+					_ = sr.Stop()
+					return
+				}
+				cancel()                          // the caller's context ends first ...
+				time.Sleep(30 * time.Millisecond) // ... the monitor notices and leaves ...
+				_ = sr.Stop()                     // ... and then the rebalancer is stopped
+				if bt.background.Load() {
+					ev["bgafter"] = true
+				}
+			}
+		})
+		ev["returned"], ev["panic"] = ret, pm
 	case "readers-same-file", "handles-distinct-files":
 		ret, pm := timed(60*time.Second, func() { ev["equal"], ev["note"] = c18Handles(*scenario, *dir, *seed) })
 		ev["returned"], ev["panic"] = ret, pm
